@@ -40,7 +40,8 @@ func (c *Check) combineNonNil() {
 		return
 	}
 	n := 0
-	for _, b := range f.Blocks {
+	// (the accumulation may sit in a helper or method that chunkedGrab calls)
+	for _, b := range helperBlocks(f, 1) {
 		for _, ins := range b.Instrs {
 			call, ok := ins.(*ssa.Call)
 			if !ok || call.Call.StaticCallee() == nil || call.Call.StaticCallee().Name() != "combineProfiles" {
@@ -80,9 +81,9 @@ func nonNilAt(v ssa.Value, b *ssa.BasicBlock) bool {
 			continue
 		}
 		var other ssa.Value
-		if cmp.X == v {
+		if cmp.X == v || sameFieldLoad(cmp.X, v) {
 			other = cmp.Y
-		} else if cmp.Y == v {
+		} else if cmp.Y == v || sameFieldLoad(cmp.Y, v) {
 			other = cmp.X
 		} else {
 			continue
